@@ -54,8 +54,9 @@ claim("C02", "exploration",
       "through nets) overlap, A before B; the values a block saw at call time equal the values at the end of the "
       "pass; explicit U<U, RD(x)<U, WR(x)>U constraints incl. inversions are honoured on template designs; "
       "signal-free constraint cycles raise UpblkCyclicError in every scheduler.",
-      "Read/write sets are over-approximated (both branches, variable index = whole signal); method (M) constraints "
-      "and the open-loop scheduler are exercised only through C17's CL queue harness, not here.",
+      "Read/write sets are over-approximated (both branches, variable index = whole signal). Direct method constraints "
+      "(M(a)<M(b), U(x)<M(a), M(a)<U(x)) are checked on a CL template here; the open-loop scheduler (OpenLoopCLPass) is "
+      "exercised by C17's open-loop queue workload.",
       "deterministic simulation with schedule recording, history check over block order", "DESIGN.md 4 C02")
 claim("C07", "exploration",
       "ff_ring templates (swap rings, reversed shift chains, holds, overwritten assignments, struct and list "
@@ -95,7 +96,10 @@ claim("C17", "exploration",
       "enq+deq, under every scheduler, with mid-run resets where the class reads reset. Every cycle rdy/val/en, head "
       "message and count/num_free_entries are compared with a deque model per kind; the delivered sequence must equal "
       "the accepted sequence; after offers stop the queue drains within cap+1 cycles. CL queues run inside a generated "
-      "top whose producer/consumer update_once blocks are ordered by the real scheduler from the queues' M() constraints.",
+      "top whose producer/consumer update_once blocks are ordered by the real scheduler from the queues' M() constraints, "
+      "and additionally behind OpenLoopCLPass, where top-level enq/deq methods are called one at a time and rdy values, "
+      "FIFO order and the cycle roll-over rule (a method positioned earlier called after a later one starts a new "
+      "cycle) are checked against a sequential deque model.",
       "valrdy_queues.py is not importable as shipped (InValRdyIfc missing); the harness supplies val/rdy/msg interfaces "
       "to reach its logic. en is asserted only when the model says rdy. Known finding F11 (BypassQueue2RTL) is listed in "
       "known_findings.json.",
